@@ -47,6 +47,14 @@ def parts_for(pid, tier, only):
                                      "f64 `%` is modelled as C fmod derived from z3's IEEE remainder; f64::round as round-half-away; f64::min/max as IEEE minNum/maxNum",
                                      "shift counts outside 0..127 and comparisons on unordered (NaN) operands are unconstrained, as the property says"],
                         bounds="no bound on values or stack depth; words are loop-free"))
+    elif pid == "C06":
+        from e2.driver import e2_run
+        from e2.lemmas import c06
+        P.append(e2_run(pid, tier, [c06], only=only,
+                        assumptions=["pre-state: any interpreter state (Eval/Compile mode) whose `input` variable holds a bit-string with start <= end <= 2^60, `offset` an integer inside it, `stash` a vector; every other part symbolic",
+                                     "which number a field decodes to is C05's subject: Bitstr::to_uint/to_int/to_f32/to_f64 and eq_with are uninterpreted functions of (range, buffer) here",
+                                     "nulbytestr / cstr / find / magic's mismatch scan loop over the content: not covered by this lemma set (stated in DESIGN.md)"],
+                        bounds="no bound on input length, offset or the size argument (full 128-bit symbolic); words are loop-free after the decoder summaries"))
     else:
         return None
     return P
